@@ -58,6 +58,17 @@ def case_st(draw):
             reqs.append({"path": draw(pathspell.hostile_paths()), "labels": ["hostile"], "kind": "hostile"})
         else:
             reqs.append({"path": "/" + draw(st.text(max_size=20)), "labels": ["random"], "kind": "random"})
+    # a plain file or directory behind a symlinked directory: '<link>/<name that exists behind it>'
+    behind_of = {"outside": ["out.gmi", "index.gmi", "dir/deep.gmi", "dir", ""], "outside/dir": ["deep.gmi"], "capsule-secret": ["secret.gmi", ""],
+                 "capsule2": ["two.gmi", ""], "PARENT": ["outside/out.gmi", "capsule-secret/secret.gmi"]}
+    dirlinks = [n_ for n_ in spec["nodes"] if n_["t"] == "link" and (n_["to"] in behind_of)]
+    for _ in range(draw(st.integers(0, 3)) if dirlinks else 0):
+        lk = draw(st.sampled_from(dirlinks))
+        inner = draw(st.sampled_from(behind_of[lk["to"]]))
+        segs = lk["p"].split("/")[1:] + ([x for x in inner.split("/")] if inner else [])
+        mid = draw(st.sampled_from(["", "", "./", "x/../"]))
+        pth = "/" + "/".join(pathspell.rfc_encode(x) for x in segs[:-1] + [""]) + mid + pathspell.rfc_encode(segs[-1]) if len(segs) > 1 else "/" + pathspell.rfc_encode(segs[0])
+        reqs.append({"path": pth.replace("//", "/") if not mid else pth, "labels": ["through-link", "aim-outside"], "kind": "spell"})
     # '<link>/../<sibling>': lexically the sibling next to the link, on disk whatever lies next to the link's target
     links = [n_ for n_ in spec["nodes"] if n_["t"] == "link"]
     for _ in range(draw(st.integers(0, 3)) if links else 0):
@@ -270,6 +281,67 @@ def run_tree(case: dict):
         fsgen.destroy(S)
 
 
+# ------------------------------------------------------------------ several static locations, each with its own root
+
+
+def enum_locations(tier):
+    import itertools
+
+    prefixes = ["/pub/", "/docs/", "/staff/", "/"]
+    for n in (2, 3, 4):
+        for combo in itertools.permutations(prefixes, n):
+            for via in ("object", "dict"):
+                yield {"order": list(combo), "via": via}
+
+
+def run_locations(case: dict):
+    """Every location serves from its own document root: /pub/... must never be answered from the root configured for
+    /staff/... . Each root holds the same relative names; the content names the root it lies in."""
+    import shutil
+
+    from vlib import scratch
+
+    setup_logging()
+    from nauyaca.protocol.request import GeminiRequest
+    from nauyaca.server.config import ServerConfig
+    from nauyaca.server.location import HandlerType, LocationConfig
+
+    S = scratch.subdir("c02-loc")
+    try:
+        names = {"/pub/": "locA", "/docs/": "locB", "/staff/": "locC", "/": "locRoot"}
+        for root in names.values():
+            for sub in ("pub", "docs", "staff", ""):
+                d = os.path.join(S, root, sub)
+                os.makedirs(d, exist_ok=True)
+                with open(os.path.join(d, "f.gmi"), "w") as f:
+                    f.write(f"ROOT<{root}> {sub or 'top'}\n")
+        locs = []
+        for pre in case["order"]:
+            if case["via"] == "object":
+                locs.append(LocationConfig(prefix=pre, handler_type=HandlerType.STATIC, document_root=os.path.join(S, names[pre])))
+            else:
+                locs.append(LocationConfig.from_dict({"prefix": pre, "handler": "static", "document_root": os.path.join(S, names[pre])}))
+        cfg = ServerConfig(host="127.0.0.1", port=1965, document_root=os.path.join(S, "locRoot"), locations=locs)
+        router = cfg.get_location_router()
+        checked = 0
+        for path in ("/pub/f.gmi", "/docs/f.gmi", "/staff/f.gmi", "/f.gmi", "/pub/../staff/f.gmi", "/staff/%2e%2e/pub/f.gmi"):
+            # the responsible location: the first configured prefix that is a string prefix of the request path
+            owner = next((pre for pre in case["order"] if path.startswith(pre)), None)
+            resp = router.route(GeminiRequest.from_line("gemini://localhost" + path))
+            body = resp.body.decode("utf-8", "replace") if isinstance(resp.body, bytes) else (resp.body or "")
+            checked += 1
+            if 20 <= resp.status <= 29:
+                m = re.search(r"ROOT<([^>]*)>", body)
+                if owner is None or m is None or m.group(1) != names[owner]:
+                    return viol("served-from-another-locations-root", f"locations in the order {case['order']} ({case['via']}): {path!r} belongs to "
+                                f"location {owner!r} (root {names.get(owner)}), but the answer is {body[:40]!r}")
+            elif owner is not None and ".." not in path and "%2e" not in path:
+                return viol("inside-file-not-served", f"locations {case['order']}: {path!r} -> {resp.status} {resp.meta!r}", spelling="location", path=path)
+        return ok(checked=checked)
+    finally:
+        shutil.rmtree(S, ignore_errors=True)
+
+
 def _nontrivial(case, v):
     return v.info.get("escape_attempts", 0) > 0 or v.info.get("complete", 0) > 0 or v.kind == "violation"
 
@@ -296,6 +368,11 @@ def _bucket(case, v):
 
 
 LANES = [
+    Lane(name="locations", run_case=run_locations, enumerate=enum_locations, budget={"quick": 1, "thorough": 1},
+         shards={"quick": 8, "thorough": 8}, nontrivial=lambda c, v: len(c["order"]) > 2, exhaustive=True,
+         labels=lambda c, v: ["n:%d" % len(c["order"]), "via:" + c["via"]],
+         rule="all orders of 2-4 static locations (/pub/, /docs/, /staff/, /) with separate roots, built as objects and "
+              "through from_dict; each request must be answered from the root of the first matching location"),
     Lane(name="trees", wall_limit=30.0, run_case=run_tree, strategy=case_st, budget={"quick": 1600, "thorough": 30000},
          shards={"quick": 16, "thorough": 64}, nontrivial=_nontrivial, labels=_labels, bucket=_bucket,
          rule="one generated tree + 4-14 generated requests + completeness requests for every servable inside file"),
